@@ -208,7 +208,7 @@ func runHarness(prog *ssa.Program, pkg *ssa.Package, f *ssa.Function, params map
 	e := &Engine{prog: prog, fast: fast, strong: strong, globals: map[*ssa.Global]int{}, maxSteps: steps, verbose: verbose,
 		reached: map[string]int{}, witnessed: map[string]bool{}, params: params, tier: tier, merge: merge, mergeCap: mergeCap,
 		base: map[int]*Obj{}, fninfo: map[*ssa.Function]*fnInfo{}, funcsHit: map[string]int{}, asserts: map[string]*AssertStat{},
-		mergeOK: map[siteKey]int{}, mergeBad: map[siteKey]int{}, overrides: map[string]*ssa.Function{}, overrideGroup: map[*ssa.Function]string{}, stubsUsed: map[string]int{}, traceOn: trace}
+		lockset: map[[2]int]*lockSet{}, mergeOK: map[siteKey]int{}, mergeBad: map[siteKey]int{}, overrides: map[string]*ssa.Function{}, overrideGroup: map[*ssa.Function]string{}, stubsUsed: map[string]int{}, traceOn: trace}
 	defer func() {
 		if r := recover(); r != nil {
 			res.Status = "inconclusive"
@@ -311,6 +311,27 @@ func runHarness(prog *ssa.Program, pkg *ssa.Package, f *ssa.Function, params map
 	res.Solver = map[string]interface{}{
 		"feasibility": map[string]interface{}{"bin": fb, "queries": fast.Queries, "sat": fast.NSat, "unsat": fast.NUnsat, "unknown": fast.NUnknown, "errors": fast.Errors, "total_s": fast.Total.Seconds(), "max_s": fast.MaxQ.Seconds()},
 		"obligation":  map[string]interface{}{"bin": sb, "queries": strong.Queries, "sat": strong.NSat, "unsat": strong.NUnsat, "unknown": strong.NUnknown, "errors": strong.Errors, "total_s": strong.Total.Seconds(), "max_s": strong.MaxQ.Seconds(), "last_error": strong.LastErr},
+	}
+	// lockset (Eraser) verdicts over all recorded paths
+	raceSeen := map[string]bool{}
+	for key, ls := range e.lockset {
+		if ls.writes == 0 || len(ls.cands) > 0 {
+			continue
+		}
+		wfn := ls.wsite
+		if k := strings.Index(wfn, " < "); k > 0 {
+			wfn = wfn[:k]
+		}
+		if k := strings.LastIndex(wfn, "("); k > 0 {
+			wfn = wfn[:k]
+		}
+		msg := "lockset: shared cell written in " + wfn + " is not protected by one common lock held exclusively by writers"
+		if raceSeen[msg] {
+			continue
+		}
+		raceSeen[msg] = true
+		_ = key
+		e.outcomes = append(e.outcomes, &Outcome{Kind: "assert", Msg: msg, Site: ls.wsite + " || other access: " + ls.rsite})
 	}
 	status := "ok"
 	seen := map[string]int{}
